@@ -503,6 +503,7 @@ def run(chk):
     _runq_rule(chk, prog)
     _tailwriters_rule(chk, prog)
     _pendingmark_rule(chk, prog)
+    _givewithdraw_rule(chk, prog)
 
 
 # who may append at the TAIL of a channel's queues; everything that hands an element back (a value bounced by a reader
@@ -696,3 +697,42 @@ def _runq_rule(chk, prog):
                           "`%s` can be reached on a path that left the run-queue loop while tasks were still queued (neither "
                           "spawn.head == spawn.tail nor a pending interrupt was established): the poll then blocks although a fiber is "
                           "runnable, and with no timer or stream event due it blocks for ever" % x.text()[:40])
+
+
+def _givewithdraw_rule(chk, prog):
+    """A give that has to wait leaves its value in the channel's queue and registers the giver in write_pending; the
+    taker that later removes the value wakes the giver.  For a plain give that is the protocol.  For a give CLAUSE of
+    ev/select it means the value is queued in the channel of every waiting give clause at once: when the select
+    completes through another clause, the registration goes stale but the value stays and is handed to the next taker -
+    a value is received although the select reported a different clause (and exactly one)."""
+    rule = "C06-GIVEWITHDRAW"
+    chk.rule(rule, "a give clause of ev/select that has to wait does not leave its value queued in the channel (or the value is withdrawn when another clause completes)")
+    fn = next((f for f in prog.tus["ev.c"].funcs.values() if f.name == "janet_channel_push_with_lock"), None)
+    if fn is None:
+        raise AnalysisBroken("janet_channel_push_with_lock not found")
+    chk.analysed(fn)
+    regs = [c for c in fn.calls("janet_q_push") if any(y.k == "mem" and y.field == "write_pending" for y in c.args[0].walk())]
+    if not regs:
+        raise AnalysisBroken("janet_channel_push_with_lock: the registration in write_pending was not found")
+    choice = any(y.k == "ref" and y.name == "JANET_CP_MODE_CHOICE_WRITE" for y in fn.nodes)
+    withdraw = [f.name for f in prog.tus["ev.c"].funcs.values()
+                if any(c.k == "call" and c.callee in ("janet_q_remove", "janet_q_pop_tail") and any(y.k == "mem" and y.field == "items" for y in c.walk()) for c in f.nodes)]
+
+    def transfer(st, x):
+        if x.k == "call" and x.callee == "janet_q_push" and any(y.k == "mem" and y.field == "items" for y in x.args[0].walk()):
+            return st | {"queued"}
+        return st
+    IN, OUT, T = flow.forward_paths(fn, frozenset(), transfer)
+    for x, S in flow.states_at(fn, IN, T):
+        if x not in regs:
+            continue
+        chk.instance(rule)
+        queued = bool(S) and all("queued" in ps for ps in S)
+        if choice and queued and not withdraw:
+            chk.violation(rule, "ev.c", fn.name, "choice-write-queued", x.loc,
+                          "a give clause of ev/select that must wait reaches `%s` with its value already pushed into channel->items, and "
+                          "nothing ever takes a queued value back: (ev/select [a 1] [b 2]) that completes through a leaves 2 in b, and the "
+                          "next (ev/take b) receives it" % x.text()[:60])
+        else:
+            chk.ok(rule, "janet_channel_push_with_lock: a waiting select clause leaves no value behind")
+    chk.floor(rule, 1, len(regs))
